@@ -70,9 +70,18 @@ def _merged_mem_update(orig):
 
         def body():
             mem.arr, mem.present = snap, snap_p
-            orig(self, net)
-            return mem.arr, mem.present
+            ret = orig(self, net)
+            return mem.arr, mem.present, ret
         paths = explore(body, lazy=True)
+        if any(p.exc is None and p.result[2] is not None for p in paths):
+            # this _mem_update hands something back to its caller instead of (only) updating the memory: no merging, the
+            # real method runs as it is and the exploration forks where it branches
+            mem.arr, mem.present = snap, snap_p
+            return orig(self, net)
+        paths = [p for p in paths]
+        for p in paths:
+            if p.exc is None:
+                p.result = p.result[:2]
         acc, acc_p = None, None
         for p in paths:
             if p.exc is not None:
